@@ -82,8 +82,8 @@ def gen_histories(ctx, binp, pid):
             for _ in range(max(1, per_world // 2)):
                 hs += l2gen.reconf_histories(w, rnd, nops)
             if w["policy"] == "ta":
-                for _ in range(3):
-                    hs.append(l2gen.fill_history(w, rnd, nops + 10, reconf=0.2))
+                for k in range(3):
+                    hs.append(l2gen.fill_history(w, rnd, nops + 10, reconf=0.2, topup=k > 0))
         return hs
     for w in worlds:
         for j in range(per_world):
@@ -91,7 +91,7 @@ def gen_histories(ctx, binp, pid):
             if pid == "C14":
                 disorder = 0.25 if j % 2 == 0 else 0.08
             if pid in ("C01", "C03", "C09") and w["policy"] == "ta" and j % 3 == 2:
-                hs.append(l2gen.fill_history(w, rnd, nops + 10))
+                hs.append(l2gen.fill_history(w, rnd, nops + 10, topup=rnd.random() < 0.5))
                 continue
             # valid configuration changes in the middle of histories (C09 compares with the pristine state of the
             # configuration in force: known again once a configuration is applied with nothing alive)
